@@ -97,15 +97,21 @@ def build(mod, b, clean=False):
     lock = open(os.path.join(COQ, '.build.lock'), 'w')
     fcntl.flock(lock, fcntl.LOCK_EX)
     try:
-        if not os.path.exists(os.path.join(COQ, 'Makefile')) or os.path.getmtime(os.path.join(COQ, 'Makefile')) < os.path.getmtime(os.path.join(COQ, '_CoqProject')):
-            sh('coq_makefile -f _CoqProject -o Makefile', cwd=COQ, timeout=120)
+        # build from the subset of _CoqProject whose files exist (a half-written entry must not break other properties)
+        lines = [l.strip() for l in open(os.path.join(COQ, '_CoqProject')) if l.strip()]
+        keep = [l for l in lines if l.startswith('-') or os.path.exists(os.path.join(COQ, l))]
+        filt = '\n'.join(keep) + '\n'
+        fpath = os.path.join(COQ, '.CoqProject.filtered')
+        if not os.path.exists(fpath) or open(fpath).read() != filt or not os.path.exists(os.path.join(COQ, 'Makefile.chk')):
+            open(fpath, 'w').write(filt)
+            sh('coq_makefile -f .CoqProject.filtered -o Makefile.chk', cwd=COQ, timeout=120)
         targets = ['props/%s.vo' % mod.ID] + [m.replace('.', '/') + '.vo' for m in mod.COQ_EXEC]
         if clean:
             for t in targets:
                 for ext in ('', 'k', 's'):
                     try: os.remove(os.path.join(COQ, t + ext))
                     except OSError: pass
-        rc, out = sh('timeout 3000 make -j16 ' + ' '.join(targets), cwd=COQ, timeout=3100)
+        rc, out = sh('timeout 3000 make -f Makefile.chk -j16 ' + ' '.join(targets), cwd=COQ, timeout=3100)
         b.log += out
         b.checker_cmd = 'cd /verif/coq && coq_makefile -f _CoqProject -o Makefile && make -j16 ' + ' '.join(targets) + ' && coqc -Q . PB props/%s.v' % mod.ID
         if rc != 0:
